@@ -2846,7 +2846,17 @@ package gomatrixserverlib
 // level / mainline position computed for that very event (the i-th wrapper carries the i-th event). The two look-ups
 // themselves write only their caches (ASSUMED frames, by inspection: powerLevelContents / powerLevelMainlinePos)
 //@ func (*stateResolverV2).getPowerLevelFromAuthEvents
-//@   trusted
+//@   property C10, C11
+//@   nosafety
+//@   requires r != nil && r.powerLevelContents != nil
+//@   ensures no-level-found-is-zero: (!called(UserLevel) && !(ret(MustGetRoomVersion).PrivilegedCreators())) ==> result == 0
+//@   ensures the-level-looked-up: called(UserLevel) ==> result == ret(UserLevel)
+//@   calls MustGetRoomVersion@root the-events-own-version: verStr == root_event.Version()
+//@   calls CreatorsFromCreateEvent@root the-resolved-create-event: createEvent == r.resolvedCreate && ret(MustGetRoomVersion).PrivilegedCreators()
+//@   calls UserLevel@root the-events-own-sender: senderID == root_event.SenderID()
+//@   calls NewPowerLevelContentFromEvent@root a-power-levels-auth-event-of-the-event: 0 <= idx(2) && idx(2) < len(root_event.AuthEventIDs()) && event == get(r.authEventMap, root_event.AuthEventIDs()[idx(2)]) && event.Type() == "m.room.power_levels" && *event.StateKey() == ""
+//@   loop 1: invariant 0 <= idx(1)
+//@   loop 2: invariant 0 <= idx(2)
 //@   assigns r.powerLevelContents[*]
 //@ func (*stateResolverV2).getFirstPowerLevelMainlineEvent
 //@   trusted
